@@ -54,7 +54,16 @@ func restartCase(rt *rapid.T, prop string, levels []byte, pointLimit int) {
 			if rapid.IntRange(0, 3).Draw(rt, "transientLoadErrorAtFirstTry") == 0 {
 				failLoad = rapid.IntRange(1, 6).Draw(rt, "nthLoad")
 			}
-			n, pend := h0.restart(restartOpts{K: k, Late: late, Config: cfg, PreAdoptFailLoad: failLoad})
+			// (1 in 5 of the others: a first AdoptSession with limits of 1 to 3, which
+			// refuses when more is pending and must leave everything as it was)
+			lowLimits := 0
+			if failLoad == 0 && rapid.IntRange(0, 4).Draw(rt, "misconfiguredFirstTry") == 0 {
+				lowLimits = rapid.IntRange(1, 3).Draw(rt, "lowLimits")
+			}
+			n, pend := h0.restart(restartOpts{K: k, Late: late, Config: cfg, PreAdoptFailLoad: failLoad, PreAdoptLimits: lowLimits})
+			if lowLimits != 0 && n.PreAdoptFatal != nil {
+				n.label("adopted-after-a-try-with-limits-too-low")
+			}
 			if n.PreAdoptRan && n.PreAdoptFatal != nil {
 				n.label("adopted-at-the-second-try-after-a-Load-error")
 			}
